@@ -172,7 +172,11 @@ func init() {
 				continue
 			}
 			ref := resultsOf(zlint.LintCertificate(c))
-			for r := 1; r < reps; r++ {
+			nrep := reps
+			if strings.HasPrefix(o.name, "generated-") || strings.Contains(o.name, "ku-eku") && len(o.der)%3 == 0 {
+				nrep = 12 // the objects aimed at map-iteration order get the full count in every tier
+			}
+			for r := 1; r < nrep; r++ {
 				got := resultsOf(zlint.LintCertificate(c))
 				repRuns++
 				for n, v := range ref {
